@@ -476,8 +476,8 @@ impl<'a> Compiler<'a> {
         }
 
         let locals = &mut self.locals[function_id - 1];
-        // try to find in the locals of the parent function
-        for (i, local) in locals.iter_mut().enumerate() {
+        // try to find in the locals of the parent function, the innermost declaration first
+        for (i, local) in locals.iter_mut().enumerate().rev() {
             if local.name == name {
                 local.captured = true;
                 return self
